@@ -5,7 +5,7 @@
    attributes), from the sources as committed in /repo (fix series proposed_fixes/SERIES-C14C15.txt + CSV cell-text fix b0400cb).
    "reachable s": s is the state after some sequence of requests whose library calls return (wf_request). *)
 From Coq Require Import List String ZArith QArith Bool.
-From Crem Require Import Base.Res Engine EngineProofs EngineC14 EngineSolutions EngineCatchment.
+From Crem Require Import Base.Res Engine EngineProofs EngineC14 EngineSolutions EngineCatchment EngineEncoding EngineCorr EngineSized.
 From Crem Require Catchment.
 Import ListNotations.
 
@@ -97,7 +97,30 @@ Theorem C14_label_not_in_current_summary_is_not_found : forall (s : state V) (la
   get_solution s label = Ok (resp, s') -> resp = error_response 404 /\ s' = s.
 Proof. exact label_not_in_current_summary. Qed.
 
+(* 4c. The encoding leg of the route triple, for EVERY number of management actions (no bound, no word-boundary case
+       split): in every reachable state with a loaded scenario, PATCH /model [{Encoding: encode bits}] -- the text the
+       engine itself serves as the Encoding attribute of the action set [bits] -- is answered 200 and leaves the live model
+       and the served snapshot in exactly [bits].  With C14_route_equivalence the representation is then the one the
+       whole-table and per-subcatchment routes to [bits] produce. *)
+Theorem C14_encoding_patch_reaches_its_set : forall (s : state V) (m : mstate V) (r : request V) (bits : list bool),
+  reachable s -> st_model s = Some m ->
+  List.length bits = List.length (d_actions (m_desc m)) -> 1 <= List.length bits ->
+  encoding_patch_of r bits ->
+  exists resp m', handle s r = Ok (resp, with_model s m' (snapshot_of m'))
+    /\ rs_status resp = 200%nat /\ m_bits m' = bits /\ m_desc m' = m_desc m /\ m_id m' = m_id m.
+Proof. intros s m r bits H. apply encoding_patch_reaches_its_set. now apply reachable_Inv. Qed.
+
 End C14.
+
+(* the codec itself: what Encoding() writes for a set, Decode accepts and reads back as that set -- whatever the archive
+   held, whether the last word is partly used, full, or a single bit *)
+Theorem C14_encoding_decodes_to_its_set : forall (bs cur : list bool), 1 <= List.length bs ->
+  decode (List.length bs) cur (encode bs) = (true, bs).
+Proof. exact decode_encode. Qed.
+
+Theorem C14_encoding_is_injective : forall b1 b2 : list bool,
+  1 <= List.length b1 -> List.length b1 = List.length b2 -> encode b1 = encode b2 -> b1 = b2.
+Proof. exact encode_injective. Qed.
 
 (* 5. The abstract valuation tied to the catchment model (EngineCatchment.v): for an ARBITRARY well-formed catchment
       data set [d], in every reachable engine state whose scenario is [d], the decision variables served by GET /model
@@ -214,6 +237,61 @@ Proof.
   do 2 eexists. vm_compute. repeat split; reflexivity.
 Qed.
 
+(* ---------------------------------------------------------------------------------------------------------------- *)
+(* Word boundaries, executed (EngineSized.v: definitions and the evaluations, run once by the build): scenarios with n
+   management actions, two per planning unit.  For every target set that fills, empties or straddles the last word,
+   from a state that differs from the target at the boundary actions, the three routes -- whole-table upload,
+   per-subcatchment updates, encoding patch -- end in the target set, serve its canonical Encoding and answer
+   GET /model, /model/actions/active and /model/subcatchment/<id> (every unit) identically; plus a full sweep (one
+   per-subcatchment update for EVERY unit) from the freshly posted scenario.  The literal texts next to them pin the
+   format: a FULL last word (64, 128 actions) keeps every one of its bits. *)
+Example C14_example_routes_agree_63_actions :
+  sz_all_triples_ok 63 = true
+  /\ encode (sz_set 63 (fun _ => true)) = "7FFFFFFFFFFFFFFF"%string
+  /\ encode (sz_set 63 (fun i => Nat.eqb i 62)) = "4000000000000000"%string
+  /\ decode 63 (repeat false 63) "FFFFFFFFFFFFFFFF" = (true, sz_set 63 (fun _ => true)).   (* bit 63 is beyond the 63 actions: dropped *)
+Proof. exact sz_example_63. Qed.
+
+Example C14_example_routes_agree_64_actions :
+  sz_all_triples_ok 64 = true
+  /\ encode (sz_set 64 (fun _ => true)) = "FFFFFFFFFFFFFFFF"%string
+  /\ encode (sz_set 64 (fun i => Nat.eqb i 63)) = "8000000000000000"%string
+  /\ decode 64 (repeat false 64) "FFFFFFFFFFFFFFFF" = (true, sz_set 64 (fun _ => true))
+  /\ decode 64 (repeat false 64) "8000000000000000" = (true, sz_set 64 (fun i => Nat.eqb i 63))
+  /\ fst (decode 64 (repeat false 64) "0:1") = false /\ fst (decode 64 (repeat false 64) "") = false.
+Proof. exact sz_example_64. Qed.
+
+Example C14_example_routes_agree_65_actions :
+  sz_all_triples_ok 65 = true
+  /\ encode (sz_set 65 (fun _ => true)) = "FFFFFFFFFFFFFFFF:1"%string
+  /\ encode (sz_set 65 (fun i => Nat.eqb i 64)) = "0:1"%string
+  /\ encode (sz_set 65 (fun _ => false)) = "0:0"%string
+  /\ decode 65 (repeat false 65) "0:FFFFFFFFFFFFFFFF" = (true, sz_set 65 (fun i => Nat.eqb i 64))
+  /\ fst (decode 65 (repeat false 65) "1") = false /\ fst (decode 65 (repeat false 65) "0:0:0") = false.
+Proof. exact sz_example_65. Qed.
+
+Example C14_example_routes_agree_128_actions :
+  sz_all_triples_ok 128 = true
+  /\ encode (sz_set 128 (fun _ => true)) = "FFFFFFFFFFFFFFFF:FFFFFFFFFFFFFFFF"%string
+  /\ encode (sz_set 128 (fun i => Nat.eqb i 127)) = "0:8000000000000000"%string
+  /\ encode (sz_set 128 (sz_last_word 128)) = "0:FFFFFFFFFFFFFFFF"%string
+  /\ decode 128 (repeat false 128) "1:FFFFFFFFFFFFFFFF" = (true, sz_set 128 (fun i => Nat.eqb i 0 || sz_last_word 128 i))
+  /\ fst (decode 128 (repeat false 128) "FFFFFFFFFFFFFFFF") = false.
+Proof. exact sz_example_128. Qed.
+
+(* and the sizes around them, the multi-word ones included *)
+Example C14_example_routes_agree_around_word_boundaries :
+  forallb sz_all_triples_ok [1; 2; 3; 62; 66; 127; 129; 192] = true.
+Proof. exact sz_example_around. Qed.
+
+(* non-vacuity of 4c at a full last word: the hypotheses hold for the 64-action scenario *)
+Example C14_example_encoding_patch_64 :
+  exists s m, run init_state [sz_post 64] = Ok s /\ st_model s = Some m
+    /\ List.length (sz_set 64 (fun i => Nat.eqb i 63)) = List.length (d_actions (m_desc m))
+    /\ encoding_patch_of (sz_patch 64 "8000000000000000") (sz_set 64 (fun i => Nat.eqb i 63))
+    /\ wf_request (sz_patch 64 "8000000000000000") = true.
+Proof. exact sz_example_patch_64. Qed.
+
 Print Assumptions C14_error_leaves_state.
 Print Assumptions C14_text_verbatim.
 Print Assumptions C14_reads_do_not_write.
@@ -225,5 +303,8 @@ Print Assumptions C14_solution_served_from_current_summary.
 Print Assumptions C14_label_not_in_current_summary_is_not_found.
 Print Assumptions C14_route_equivalence.
 Print Assumptions C14_engine_attributes_stay_tidy.
+Print Assumptions C14_encoding_patch_reaches_its_set.
+Print Assumptions C14_encoding_decodes_to_its_set.
+Print Assumptions C14_encoding_is_injective.
 Print Assumptions C14_served_variables_are_the_catchment_valuation.
 Print Assumptions C14_routes_serve_the_same_catchment_valuation.
